@@ -27,3 +27,51 @@ contract(
     opaque={"exp.false": dict(returns="fresh:Boolean")},
     ghost={"concrete_attrs": ["LT_LTE", "GT_GTE"]},
 )
+
+# ---- the connector table (AND / OR over the constant-like operands) against Kleene logic -----------------------------
+from pyvc.contract import uninterpreted
+
+uninterpreted("tv", 1, "int")   # truth value of a node under an arbitrary fixed assignment: 1 TRUE, 0 NULL, -1 FALSE
+for _p in ("p_false", "p_null", "p_zero", "p_true"):
+    uninterpreted(_p, 1)
+# meaning of the leaf predicates (read off their definitions: FALSE literal, NULL, numeric literal 0, TRUE / non-zero number)
+LEAF = [
+    "forall(val, lambda n: implies(truthy(p_false(n)), tv(n) == -1))",
+    "forall(val, lambda n: implies(truthy(p_null(n)), tv(n) == 0))",
+    "forall(val, lambda n: implies(truthy(p_zero(n)), tv(n) == -1))",
+    "forall(val, lambda n: implies(truthy(p_true(n)), tv(n) == 1))",
+    "forall(val, lambda n: tv(n) == 1 or tv(n) == 0 or tv(n) == -1)",
+]
+contract(
+    S, "Simplifier.simplify_connectors._simplify_connectors", props=["C06"],
+    types={"expression": "Expression", "left": "Expression", "right": "Expression", "^self": "Simplifier"},
+    requires=LEAF,
+    ensures=[
+        "implies(result is not None and isinstance(expression, And), tv(result) == min(tv(left), tv(right)))",
+        "implies(result is not None and isinstance(expression, Or), tv(result) == max(tv(left), tv(right)))",
+        "implies(not isinstance(expression, And) and not isinstance(expression, Or), result is None)",
+    ],
+    modifies=[],
+    opaque={
+        "is_false": dict(pure=True, uf="p_false"), "is_null": dict(pure=True, uf="p_null"), "is_zero": dict(pure=True, uf="p_zero"),
+        "always_true": dict(pure=True, uf="p_true"),
+        # always_false(x) = is_false(x) or is_null(x) or is_zero(x)   (its definition, checked by the contract below)
+        "always_false": dict(pure=True, uf="p_afalse", ensures=["truthy(result) == (truthy(p_false(a0)) or truthy(p_null(a0)) or truthy(p_zero(a0)))"]),
+        "exp.false": dict(returns="fresh:Boolean", ensures=["tv(result) == -1"]),
+        "exp.true": dict(returns="fresh:Boolean", ensures=["tv(result) == 1"]),
+        "exp.null": dict(returns="fresh:Null", ensures=["tv(result) == 0"]),
+        # the range table: sound for non-NULL operands (proved above); None = no rewrite
+        "self._simplify_comparison": dict(returns="Expression|none", ensures=[
+            "implies(result is not None and isinstance(expression, And), tv(result) == min(tv(left), tv(right)))",
+            "implies(result is not None and isinstance(expression, Or), tv(result) == max(tv(left), tv(right)))"]),
+    },
+)
+uninterpreted("p_afalse", 1)
+
+contract(
+    S, "always_false", props=["C06"],
+    types={"expression": "any"},
+    ensures=["truthy(result) == (truthy(p_false(expression)) or truthy(p_null(expression)) or truthy(p_zero(expression)))"],
+    modifies=[],
+    opaque={"is_false": dict(pure=True, uf="p_false"), "is_null": dict(pure=True, uf="p_null"), "is_zero": dict(pure=True, uf="p_zero")},
+)
